@@ -322,6 +322,27 @@ func c04Worker(w *core.WorkerCtx) {
 			c04Offer(world, holder, m, "already holds the original")
 			c04Offer(world, parker, m, "has the original parked and its parent admitted")
 		}
+		// addresses replaced by the address of the very node the vertex is offered to
+		for _, nd := range []*ledger.Node{fresh, holder, parker} {
+			for vi, f := range []func(v *accountant.Vertex){
+				func(v *accountant.Vertex) { v.SignerPublicAddress = nd.Actor.Addr },
+				func(v *accountant.Vertex) { v.SignerPublicAddress = nd.Actor.Addr; v.Transaction.Spice.Currency += 5 },
+				func(v *accountant.Vertex) { v.Transaction.IssuerAddress = nd.Actor.Addr },
+				func(v *accountant.Vertex) { v.Transaction.ReceiverAddress = nd.Actor.Addr },
+				func(v *accountant.Vertex) {
+					// a fresh transaction hash too, so that no 'already known' shortcut applies
+					v.SignerPublicAddress = nd.Actor.Addr
+					v.Transaction.Subject += "!"
+					v.Transaction.Hash[0] ^= 1
+					v.Hash[0] ^= 1
+				},
+			} {
+				mv := *ledger.CloneVertex(&base)
+				f(&mv)
+				m := mutant{mv, fmt.Sprintf("own-node-address/variant%d", vi), fmt.Sprintf("an address replaced by the receiving node's own address (variant %d)", vi)}
+				c04Offer(world, nd, &m, "is named by the altered vertex")
+			}
+		}
 		if bi == 0 && w.Batch == 0 {
 			for i := 0; i < len(muts) && i < 400; i += 67 {
 				w.R.Sample(8, map[string]any{"base_kind": kind, "mutation": muts[i].desc, "class": muts[i].class})
